@@ -415,6 +415,20 @@ pub fn run(tier: Tier) -> i32 {
             ] {
                 check_call_or_general(e, &d, st);
             }
+            // integers above 2^53 mixed with doubles of (nearly) the same value, shuffled: the order
+            // must be the order of the real numbers (a total order across the two representations)
+            {
+                let base: Vec<Value> = vec![
+                    json!(9007199254740993u64), json!(9007199254740992.0), json!(9007199254740992u64), json!(9007199254740994u64), json!(9007199254740994.0),
+                    json!(9007199254740991u64), json!(9007199254740996.0), json!(9007199254740995u64), json!(-9007199254740993i64), json!(-9007199254740992.0),
+                    json!(18446744073709551615u64), json!(1.8446744073709552e19), json!(18446744073709549568u64), json!(9223372036854775807i64), json!(9.223372036854776e18), json!(9223372036854775808u64),
+                ];
+                let mm = n.min(96);
+                let mixed: Vec<Value> = (0..mm).map(|i| base[(i * 7 + i / 5) % base.len()].clone()).collect();
+                for e in ["sort(@)", "max(@)", "min(@)", "sort_by(@, &@)", "max_by(@, &@)", "min_by(@, &@)"] {
+                    check_call_or_general(e, &Value::Array(mixed.clone()), st);
+                }
+            }
             // distinct numbers one ulp apart (the comparison must stay a total order)
             let m = n.min(600);
             let close: Vec<f64> = (0..m).map(|i| 1.0 + (i as f64) * f64::EPSILON).collect();
